@@ -15,8 +15,8 @@ At `MI` (`Model/Interrupted.lean`: the fault monad with std's convention):
   (`GW.write`; it is used nowhere else).  That function is itself only ever called from a retry loop: by the crate
   (`add_symlink` and the alignment padding: `self.write_all`; raw copies: `io::copy`, whose writes are `write_all`) and by
   the callers of the fault harness (`w.write_all`).  When its sink call fails, `ZipWriter::write` returns the error
-  having changed NOTHING (`GW.write`, branch `| .error e => pure (.error e, s)`: the state handed back is the one it was
-  called with; `write.rs`: `stats.update` only under `if let Ok(count)`), the loop sees `Interrupted` and calls it again:
+  having changed NOTHING (`Props/C11.zipwriter_write_fault_leaves_state`; `write.rs`: `stats.update` only under
+  `if let Ok(count)`), the loop sees `Interrupted` and calls it again:
   the retry of the function is the retry of its one sink call, so at `MI` `wWrite` is retried too.  (A caller
   that calls `ZipWriter::write` bare would see `Err(Interrupted)`; no such caller is modelled.)
 
